@@ -1,4 +1,4 @@
-import AaVerif.Logs
+import AaVerif.LogsRecord
 /-!
 # C15 — aa-log reports each record's own field values, faithfully decoded
 
@@ -30,6 +30,52 @@ theorem C15_plain_run (sep : Char) (q : Bool) (s cur rest : List Char) (acc : Li
     (h1 : ∀ c ∈ s, c ≠ '"') (h2 : q = false → ∀ c ∈ s, c ≠ sep) :
     fieldsQ sep q cur (s ++ rest) acc = fieldsQ sep q (s.reverse ++ cur) rest acc :=
   fieldsQ_run sep q s cur rest acc h1 h2
+
+/-- **Every field of a well-formed record, and only those.** For EVERY list of fields `key=value` with
+pairwise different keys — values quoted (anything but a double quote inside: blanks, `=`, `#`, `,`, any
+byte) or bare (no quote, blank or `=`) — joined by single blanks, the reported event is exactly the
+association list of the record: each key with the value of its own field; the quote toggle is
+outside quotes at the end, so nothing carries over into the next record. The only rewriting is
+`resolve` (the path generalisation), applied to `profile`, `name` and `target` and to nothing else. -/
+theorem C15_fields (resolve : List Char → List Char) (fs : List (List Char × Val)) (hne : fs ≠ [])
+    (hs : ∀ f ∈ fs, KeyOk f.1 ∧ f.2.ok) (hnd : (fs.map (·.1)).Nodup) :
+    parseRecord resolve (joinSpc (fs.map fieldText)) = (false, fs.map (fieldValue resolve)) :=
+  parseRecord_fields resolve fs hne hs hnd
+
+/-- a quoted value of a key that is not generalised is reported verbatim -/
+theorem C15_quoted_verbatim (resolve : List Char → List Char) (k v : List Char) (hk : toClean.contains k = false)
+    (hv : ∀ c ∈ v, c ≠ '"') : fieldValue resolve (k, .quoted v) = (k, v) := by
+  unfold fieldValue
+  simp only [hk, Bool.false_eq_true, if_false, Val.enc, trimQuotes_quoted v hv]
+
+/-- … and a bare value too -/
+theorem C15_bare_verbatim (resolve : List Char → List Char) (k v : List Char) (hk : toClean.contains k = false)
+    (hv : ∀ c ∈ v, c ≠ '"') : fieldValue resolve (k, .bare v) = (k, v) := by
+  have : trimQuotes v = v := by
+    unfold trimQuotes
+    cases v with
+    | nil => rfl
+    | cons c cs =>
+      have hc : c ≠ '"' := hv c (by simp)
+      have h1 : (c :: cs).dropWhile (· == '"') = c :: cs := by simp [hc]
+      rw [h1]
+      cases hr : (c :: cs).reverse with
+      | nil => simp at hr
+      | cons d ds =>
+        have hd : d ∈ c :: cs := by
+          have : d ∈ (c :: cs).reverse := by rw [hr]; simp
+          exact List.mem_reverse.mp this
+        have : (d :: ds).dropWhile (· == '"') = d :: ds := by simp [hv d hd]
+        rw [this, ← hr]; simp
+  unfold fieldValue
+  simp only [hk, Bool.false_eq_true, if_false, Val.enc, this]
+
+/-- the hypotheses of `C15_fields` on a record with quoted and bare values -/
+example : (∀ f ∈ [("apparmor".toList, Val.quoted "DENIED".toList), ("name".toList, Val.quoted "/a b=c#d".toList),
+      ("pid".toList, Val.bare "12".toList)], KeyOk f.1 ∧ f.2.ok) := by
+  intro f hf
+  simp only [List.mem_cons, List.not_mem_nil, or_false] at hf
+  rcases hf with rfl | rfl | rfl <;> refine ⟨⟨by decide, by decide⟩, ?_⟩ <;> simp [Val.ok] <;> decide
 
 /-- A value that holds a double quote breaks the splitting (the kernel hex-encodes such names,
 so well-formed records never do): the hypothesis is necessary. -/
